@@ -1,7 +1,9 @@
 """C07 — the Python grammar's error path: proper SyntaxError, inside the text, same for string and file."""
 from __future__ import annotations
 
+import ast
 import glob
+import warnings
 import io
 import json
 import os
@@ -16,30 +18,46 @@ SNIPPETS = ["x = b'a' 'b'\n", "x = (1,\n\n 2) 3\n", "a = '''m\nn\no''' = 1\n", "
             "x = 1 + \\\n\\\n 2 3\n", "x = {\n 'a': 1,\n\n 'b' 2}\n", "lambda: (yield)\n\n\nx = = 2\n",
             # f-string conversions and format specs inside rejected programs
             "f\"{x!r}\" 1\n", "y = f\"{x!s:>4}\" +\n", "print(f\"{a!a} {b}\" f\"{c!r}\"\n", "z = f\"{x!r}\"\nq = (\n",
+            # every line indented (unexpected indent): both entry points must refuse alike
+            " x = 1\n", "  x = 1\n  y = 2\n", "\tdef f():\n\t\treturn 1\n", "    if a:\n        b = (1 2)\n",
             # a form feed inside a line (not a line boundary)
             "x = \"a\x0cb\" 1\ny = 2\n"]
 
 
+def host_rejected_corpus() -> list[str]:
+    """the doctest examples of the host interpreter's own test_syntax.py (invalid programs with the expected error);
+    used only for the clause-(i) search, and only if the file is installed"""
+    import doctest
+    import sysconfig
+    path = os.path.join(sysconfig.get_paths()["stdlib"], "test", "test_syntax.py")
+    try:
+        doc = ast.get_docstring(ast.parse(open(path).read()))
+        return [ex.source for ex in doctest.DocTestParser().get_examples(doc or "")]
+    except (OSError, SyntaxError, ValueError):
+        return []
+
+
 def build_parser():
+    """the module generated from data/python.gram: its own entry points parse_string / parse_file are what is exercised"""
     from pegen.build import build_parser as bp
-    from pegen.utils import generate_parser
+    from pegen.python_generator import PythonParserGenerator
     g, _, _ = bp(str(common.REPO / "data/python.gram"))
-    return generate_parser(g, parser_name="PythonParser")
+    out = io.StringIO()
+    PythonParserGenerator(g, out).generate("python.gram")
+    ns: dict = {"__name__": "pegverif_python_parser"}
+    exec(compile(out.getvalue(), "<python.gram>", "exec"), ns)
+    return ns
 
 
 def outcome(P, src: str, mode: str, tmpdir: str):
-    from pegen.tokenizer import Tokenizer
     try:
         if mode == "string":
-            tk = Tokenizer(tokenize.generate_tokens(io.StringIO(src).readline))
-            P(tk).parse("file")
+            P["parse_string"](src, "exec")
         else:
             path = os.path.join(tmpdir, "m.py")
             with open(path, "w") as f:
                 f.write(src)
-            with open(path) as fh:
-                tk = Tokenizer(tokenize.generate_tokens(fh.readline), path=path)
-                P(tk, filename=path).parse("file")
+            P["parse_file"](path)
         return ("tree",)
     except SyntaxError as e:      # includes IndentationError
         return ("SyntaxError", type(e).__name__, e.lineno, e.offset, e.text, e.msg)
@@ -107,6 +125,11 @@ def run(chk: common.Check, tier: str):
             src = src[:src.rfind("\n", 0, 3000) + 1]
         for s, kind in edits(r, src, per_file):
             sources.append((s, kind))
+    corpus = host_rejected_corpus()
+    if tier == "quick":
+        corpus = corpus[::2]
+    sources += [(s, "host-test_syntax") for s in corpus]
+    chk.bump("examples from the host's test_syntax.py", len(corpus))
     kfs = common.known_findings("C07")
     seen_known = set()
     with tempfile.TemporaryDirectory(prefix="pegverif-c07-") as tmp:
@@ -133,6 +156,21 @@ def run(chk: common.Check, tier: str):
                     if x[2] is None or not (1 <= x[2] <= nlines + 1) or (x[3] is not None and x[3] < 0):
                         chk.violation(f"{mode} raises SyntaxError with a position outside the text: line {x[2]}, column {x[3]}",
                                       {"source": src, "entry": mode, "lineno": x[2], "offset": x[3], "lines": nlines}, True)
+            # clause (i), as a SEARCH only (no theorem is possible, DESIGN.md section 11): a text the host's own parser
+            # rejects must not come back as a tree.  ast.parse stops after parsing, so compiler-stage errors do not count.
+            if a[0] == "tree":
+                try:
+                    with warnings.catch_warnings():
+                        warnings.simplefilter("ignore")
+                        ast.parse(src)
+                    chk.bump("host: accepts as well")
+                except SyntaxError as he:
+                    chk.violation(f"the generated Python parser accepts a program that the host interpreter's parser rejects "
+                                  f"({he.msg}, line {he.lineno})",
+                                  {"source": src, "host_error": he.msg, "host_lineno": he.lineno, "edit": kind,
+                                   "how": "parse_string on the source vs ast.parse of the running interpreter"}, True)
+                except (ValueError, RecursionError, MemoryError):
+                    chk.bump("host: other error (inconclusive)")
             if a[0] != "internal" and b[0] != "internal" and a != b:
                 # the file name differs in nothing we compare; positions, text and message must agree
                 chk.violation("parse_string and parse_file report differently for the same text",
@@ -140,8 +178,9 @@ def run(chk: common.Check, tier: str):
     for kf in kfs:
         if kf.get("id") in seen_known:
             chk.known(kf["what"])
-    chk.assumptions += ["clause (i) of the property (refuses exactly what the host interpreter refuses) is not covered: the "
-                        "other side of that equation is CPython's own parser (DESIGN.md section 11)"]
+    chk.assumptions += ["clause (i) of the property (refuses exactly what the host interpreter refuses) is not PROVED: the "
+                        "other side of that equation is CPython's own parser (DESIGN.md section 11); it is searched: every "
+                        "explored text that the generated parser accepts is also given to the host's ast.parse"]
 
 
 def replay(path: str) -> int:
